@@ -1,6 +1,6 @@
 """C07 - errors and panics surface once as an Error notification (DESIGN 6/C07): the fault plan <position, invocation index, kind> is enumerated by
 TLC in Pipeline.tla (Faults), each plan is executed on the real code with recover() around every harness call and a hang watchdog."""
-import vlib, parts_kernel, parts_detach, parts_creation, parts_pipeline as pp, common
+import vlib, parts_kernel, parts_detach, parts_creation, parts_multi, parts_pipeline as pp, common
 
 PID = 'C07'
 
@@ -11,6 +11,8 @@ def main(argv):
     pp.run(rep, PID, common.pipeline_cfgs(rep, 'faults'), modes='ctl-unsafe,ctl-safe,sync')
     # faults inside the FINAL OBSERVER's own callbacks (value callback at invocation 0..1, terminal callback), every instance, every script
     pp.run(rep, PID, common.pipeline_cfgs(rep, 'observer-faults'), modes='ctl-unsafe,sync')
+    # a failure raised downstream of a multi-source / higher-order operator while it emits a combined value (its own teardown runs inside its emission)
+    parts_multi.run_downstream_failure(rep, PID, rep.tier == 'thorough')
     # hand-off operators run user code on goroutines of their own: a finalizer that panics behind ObserveOn goes to the unhandled-error hook, it does not kill the process
     parts_detach.trace_part(rep, PID, 300 if rep.tier == 'thorough' else 150, [rep.seed * 100 + 30])
     # creation operators incl. a synchronous source whose teardown / finalizer panics, subscribed directly: nothing escapes into the Subscribe call
@@ -34,6 +36,8 @@ def replay(path):
     if path.endswith('.ndjson'):
         return parts_kernel.replay_trace(PID, path)
     import json
+    if json.load(open(path))['replay'].get('module') in ('MultiGen', 'HOGen'):
+        return parts_multi.replay_case(PID, path)
     if json.load(open(path))['replay'].get('module') == 'Creation':
         return parts_creation.replay_case(PID, path)
     return pp.replay_case(PID, path)
